@@ -138,6 +138,8 @@ def classify(component, what, case):
         return "F320"
     if law in ("iff-rejected", "tag") and case.get("impl_kind") == "DupCase" and "empty-np-container-next-to-other-case" in feat:
         return "F321"
+    if law == "f322":
+        return "F322"
     return None
 
 
@@ -152,6 +154,7 @@ def run(cx, nsch=None, nnest=None, nfam=None):
     schemas, cases = [], load_corpus(cx)
     witness_f320(cx, cases)
     compiler_guarantee(cx)
+    witness_f322(cx)
     # F321 witness (an empty non-presence container of one case next to data of another case), one more case on every run: the
     # unrepaired lyd_validate_cases rejects it (DupCase) and so does the model (Quirks.casesCountDefault read off the source), the
     # specification is satisfied -> law iff fails, classify() names F321; repaired: both accept, the container is removed
@@ -220,6 +223,43 @@ def witness_f320(cx, cases):
     if r[:2] != ["err", "BadSchema"]:
         cx.fail(COMP, "the source has the F320 check but the module with more leaf-list defaults than max-elements compiles (%s)" % " ".join(r[:2]),
                 dict(vc.schema_payload(s), law="f320-compile", features=features(s)))
+
+
+def f322_fixed():
+    """read off the C source: does lyd_validate_must ignore the missing LYD_WHEN_TRUE of nodes kept by an operational validation (fixes/F322.diff)?"""
+    try:
+        return "a false one is only a warning for operational data" in open(os.path.join(paths.REPO, "src", "validation.c")).read()
+    except OSError:
+        return False
+
+
+def witness_f322(cx):
+    """F322 (a must that looks at a node kept in spite of its false `when` under LYD_VALIDATE_OPERATIONAL), replayed on every run through
+    the harness only (op `valx`, options 8).  Unrepaired source: libyang answers `invalid … Other` (the LY_EINCOMPLETE of the must logged
+    as an error) — reported with law `f322`, which `classify` names.  Repaired source: the instance is accepted."""
+    s, t = vg.witness_f322()
+    s._origin = "witness-F322"
+    line = "f322 %s valx %s %s %d %s" % (COMP, tg.hx(s.dsl()), tg.hx(s.xdsl()), OPER, tg.tok(t))
+    r = vc.run_impl(cx, HARNESS, [s], [line]).get("f322", ["err", "NoReply"])
+    if r[:2] == ["err", "Crash"]:
+        return
+    fixed = f322_fixed()
+    cx.rule("F322 witness (presence container with a false when and a must on its own default leaf, validated with LYD_VALIDATE_OPERATIONAL): "
+            + ("this source tree evaluates the must of operational data whatever LYD_WHEN_TRUE says; the instance must be accepted" if fixed
+               else "this source tree stops the must with 'when … has not been evaluated'"))
+    bad = r[:2] == ["ok", "invalid"] and any(vc.dec_err(e)[0] == "Other" for e in r[3:])
+    if r[:2] == ["ok", "valid"]:
+        cx.count(("f322", s.name), True, "F322 witness accepted under OPERATIONAL")
+        if not fixed:
+            cx.notes.append("F322: the source has not the text of fixes/F322.diff but the witness is accepted")
+    elif bad and not fixed:
+        cx.count(("f322", s.name), True, "F322 witness rejected (unrepaired source)")
+        cx.fail(COMP, "a must on a node kept with a false when under LYD_VALIDATE_OPERATIONAL aborts: " + " ".join(r[:4]),
+                dict(vc.schema_payload(s), law="f322", opts=OPER, dump=tg.tok(t), reply=r[:5]))
+    else:
+        cx.count(("f322", s.name), True, "F322 witness: unexpected reply")
+        cx.fail(COMP, "F322 witness under LYD_VALIDATE_OPERATIONAL: unexpected reply %s (source %s)" % (" ".join(r[:4]), "repaired" if fixed else "unrepaired"),
+                dict(vc.schema_payload(s), law="f322-unexpected", opts=OPER, dump=tg.tok(t), reply=r[:5]))
 
 
 def compiler_guarantee(cx):
@@ -316,13 +356,13 @@ def xpath_family(cx, nsch=None, verbose=0):
     left to chance), each also with the mutations break-must / break-leafref and a few of the old ones.  The specification op does not
     know these statements, so no iff / tag law here: the tie is the correspondence `valx` (same request line to harness and model)."""
     rng = cx.sub_rng("xpath")
-    n = cx.n(6, 40) if nsch is None else nsch
+    n = cx.n(8, 40) if nsch is None else nsch
     per = cx.n(5, 15)
     schemas, cases = [], []
     from checks import c08
     mask = c08.live_mask(cx)      # the XPath engine of the model mirrors exactly the deviations still listed as `known` (C08)
     for i in range(n):
-        s = vg.fam_xpath(rng, i, nwhen=(rng.choice([0, 1, 1]) if XP_WHEN else 0))
+        s = vg.fam_xpath(rng, i, nwhen=(rng.choice([1, 1, 2]) if XP_WHEN else 0))
         s._origin = "xpath"
         s.xpmask = mask
         schemas.append(s)
